@@ -4,7 +4,7 @@ Functions under contract (real text, src/stacktrace.rs): `StackFrame::{new, with
 parameters}`, `Throwable::{new, with_message, class, message}`, `StackTrace::{new, with_cause, exception, frames}`.
 Every one is a one-liner; the contracts are there because a swapped pair of `&str` fields, a wrong default (`line: 0`, `file: None`)
 or an accessor returning the neighbouring field still type-checks and would silently change what every query is asked or what it is
-seen to answer. `StackTrace::{with_cause, exception, frames}` are covered too. Not under contract: `StackTrace::cause` (`Option::as_deref` has no specification),
+seen to answer. `StackTrace::{with_cause, exception, frames}` are covered too. `StackTrace::cause` through a shim for `Option::as_deref`. Not under contract:
 `full_method` (format!), the three `try_parse` (from_utf8 + the parsers of unit u15).
 """
 from vf.unit import Unit
@@ -43,11 +43,25 @@ def build():
         simple(TH, acc, "ret == self.%s" % acc, ["C04", "C08", "C17"])
     u.raw("}\n", "glue")
     STI = "impl<'s> StackTrace<'s>"
+    u.raw("""#[verifier::external_body]
+fn shim_as_deref<'a, T>(o: &'a Option<Box<T>>) -> (r: Option<&'a T>)
+    ensures match r { Some(x) => *o is Some && *x == *(*o)->0, None => *o is None }
+{ o.as_deref() }
+""", "shim")
     u.raw(st.impl_header(STI) + "{\n", "glue")
     simple(STI, "new", "ret.exception == exception && ret.frames == frames && ret.cause is None", ["C08", "C17"])
     simple(STI, "with_cause", "ret.exception == exception && ret.frames == frames && ret.cause is Some && *ret.cause->0 == cause", ["C08", "C17"])
     simple(STI, "exception", "match ret { Some(e) => self.exception == Some(*e), None => self.exception is None }", ["C08", "C17"])
     simple(STI, "frames", "ret@ == self.frames@", ["C08", "C17"])
+    # `self.cause.as_deref()`: Option<Box<T>> -> Option<&T> has no vstd specification: behind a shim (R2) whose contract is the std documentation
+    g = st.impl_fn(STI, "cause")
+    g.ret("ret")
+    g.contracted = True
+    g.props_all = ["C08", "C17"]
+    g.props_safety = ["C13"]
+    g.replace_all_re(r"self\.cause\.as_deref\(\)", "shim_as_deref(&self.cause)", "R2", why="Option::as_deref behind a shim (documented contract: the value behind the box, or None)", min_count=1)
+    g.contract("    ensures /*@L:stacktrace_cause_is_the_stored_cause:C08,C17*/ match ret { Some(c) => self.cause is Some && *c == *self.cause->0, None => self.cause is None },")
+    u.emit(g)
     u.raw("}\n", "glue")
     u.raw(FOOTER, "footer")
     return u
